@@ -1016,3 +1016,12 @@ UNIT_META["node_codec"] = {"functions": ["column::unpack_node_data", "column::un
                                        "u64::to_le_bytes / from_le_bytes are inverse and 8 bytes long (two axioms over uninterpreted functions)"]}
 PROPS["C10"]["verus_units"] = list(PROPS["C10"].get("verus_units", [])) + ["node_codec"]
 PROPS["C10"]["claim"] = PROPS["C10"]["claim"] + " Reader side, unbounded (Verus; replaces the bounded harnesses of U11 as the deciding check): for EVERY byte string unpack_node_data / unpack_node_children either reject it (exactly when it is empty or shorter than its count byte demands) or return the prefix before the child bytes and the child address words in order, with no out-of-range slice and no overflow; and a node packed as data ++ address bytes ++ count -- the format claim_node is proved to write -- is decoded to exactly that data and those addresses, for any data and any list of at most 255 children (round-trip lemma)."
+
+# ---------------------------------------------------------------- U66 (Verus fragment: the drain sequence of DbInner::kill_logs, unbounded in the number of commits per stage)
+UNIT_META["shutdown_drain"] = {"functions": ["db::DbInner::kill_logs (fragment: the drain sequence after the background-error check)"],
+                               "assumes": ["DbInner::{enact_logs, flush_logs, process_commits, clean_all_logs} and Log::kill_logs are contracts over a ghost view of the pipeline (commits queued / appended / readable / applied); they take `&mut self` in the contract (real receivers: `&self`)",
+                                           "step semantics assumed: process_commits logs one queued commit per call, enact_logs applies one readable record per call, flush_logs(0) makes every appended record readable; one record per commit (a reindex record is a further 'commit' in this view)",
+                                           "the same loop invariant is inserted into each of the three `while self.enact_logs(false)? {}` loops (extractor: `insert loopinv all`)"]}
+PROPS["C03"]["verus_units"] = list(PROPS["C03"].get("verus_units", [])) + ["shutdown_drain"]
+PROPS["C03"]["claim"] = PROPS["C03"]["claim"] + " Unbounded in the number of commits per stage (Verus, fragment of DbInner::kill_logs; stage functions by contract over a ghost view of the pipeline): when the drain sequence returns Ok no accepted commit is left queued, appended or readable -- all are applied to the tables -- and the log files are reclaimed only after that; every loop of the sequence terminates."
+PROPS["C03"]["technique"] = PROPS["C03"]["technique"] + "; Verus contract on the drain sequence of DbInner::kill_logs (fragment)"
